@@ -323,11 +323,13 @@ func (e *EdgeQuery) Distance(target distanceTarget) s1.ChordAngle {
 //
 //	query.IsDistanceLess(target, limit.Successor())
 func (e *EdgeQuery) IsDistanceLess(target distanceTarget, limit s1.ChordAngle) bool {
-	opts := e.opts
-	opts = opts.MaxResults(1).
+	// Apply the per-call overrides to a copy so that the options the user
+	// configured are unchanged for later calls.
+	opts := *e.opts
+	opts.MaxResults(1).
 		DistanceLimit(limit).
 		MaxError(s1.StraightChordAngle)
-	return !e.findEdge(target, opts).IsEmpty()
+	return !e.findEdge(target, &opts).IsEmpty()
 }
 
 // IsDistanceGreater reports if the distance to target is greater than limit.
@@ -369,13 +371,18 @@ func (e *EdgeQuery) IsConservativeDistanceGreaterOrEqual(target distanceTarget, 
 // entries with edgeID == -1. This indicates that the target intersects the
 // indexed polygon with the given shapeID.
 func (e *EdgeQuery) findEdges(target distanceTarget, opts *queryOptions) []EdgeQueryResult {
+	// findEdgesInternal points e.opts at the options of this call; put the
+	// query's own options back afterwards so that per-call overrides (as used
+	// by Distance and IsDistanceLess) do not leak into later calls.
+	queryOpts := e.opts
 	e.findEdgesInternal(target, opts)
 	// TODO(roberts): Revisit this if there is a heap or other sorted and
 	// uniquing datastructure we can use instead of just a slice.
 	e.results = sortAndUniqueResults(e.results)
-	if len(e.results) > e.opts.maxResults {
-		e.results = e.results[:e.opts.maxResults]
+	if len(e.results) > opts.maxResults {
+		e.results = e.results[:opts.maxResults]
 	}
+	e.opts = queryOpts
 	return e.results
 }
 
@@ -401,8 +408,11 @@ func sortAndUniqueResults(results []EdgeQueryResult) []EdgeQueryResult {
 // This is primarily to ease the usage of a number of the methods in the DistanceTargets
 // and in EdgeQuery.
 func (e *EdgeQuery) findEdge(target distanceTarget, opts *queryOptions) EdgeQueryResult {
-	opts.MaxResults(1)
-	e.findEdges(target, opts)
+	// Limit the search to one result on a copy of the options, not on the
+	// caller's options.
+	one := *opts
+	one.MaxResults(1)
+	e.findEdges(target, &one)
 	if len(e.results) > 0 {
 		return e.results[0]
 	}
